@@ -1,6 +1,7 @@
 import NeumannModel.Common.Proto
 import NeumannModel.Rel.Model
 import NeumannModel.Rel.VecModel
+import NeumannModel.Rel.Bucket
 /-
   Line-protocol driver for the relational model (C04).  One table at a time.
 
@@ -22,6 +23,12 @@ import NeumannModel.Rel.VecModel
     qd <mx> select|count|columnar <cond>    qd <mx> limit <n> <off> <cond>                → <answer> | err too_deep
     deld <mx> <cond>     updd <mx> <k> (c<j> <val>)*k <cond>                              → ok <n> | err <e> | err too_deep
     vcmp <val> <val>                                                                      → eq=0|1 cmp=lt|eq|gt|none
+    buckets h|o <col>     → none (no such index) | - (no entry) | <id>,<id>;<id>,...   (every id vector in its own
+                             order; the vectors ordered by their smallest id)
+    q cand <cond>         → scan | <ids>   (candidate ids of `try_index_lookup` in the order the code produces them:
+                             hash vector as it stands, B-tree vectors in ascending key order)
+    rbdel <cond>          → ok <n>          (begin; tx_delete; rollback -- n rows were deleted and restored)
+    rbupd <k> (c<j> <val>)*k <cond>         → ok <n> | err <e>   (begin; tx_update; rollback)
   values: n | i<int> | f<16 hex digits> | s<hex> | b0 | b1 | y<hex> | j<tree>~<hex of the rendered text>
   JSON tree (prefix code, no blanks): z null | t | f | u<dec>; PosInt | m<dec>; NegInt (magnitude) |
       d<16 hex digits> Float | s<hex>; string | a<tree>*] array | o(s<hex>;<tree>)*} object (keys ascending)
@@ -225,6 +232,18 @@ def showE {α : Type} (f : α → String) : Except Unit α → String
   | .ok a => f a
   | .error _ => "err too_deep"
 
+def minOf : List Nat → Nat
+  | [] => 0
+  | x :: xs => xs.foldl min x
+
+def insertBucket (b : List Nat) : List (List Nat) → List (List Nat)
+  | [] => [b]
+  | y :: ys => if minOf b ≤ minOf y then b :: y :: ys else y :: insertBucket b ys
+
+def showBuckets (bs : List (List Nat)) : String :=
+  if bs.isEmpty then "-"
+  else ";".intercalate ((bs.foldr insertBucket []).map fun b => ",".intercalate (b.map toString))
+
 def relStep (t : Table) (line : String) : Table × String :=
   let bad := (t, "bad-op")
   match words line with
@@ -334,6 +353,26 @@ def relStep (t : Table) (line : String) : Table × String :=
           | none => bad)
       | _, _ => bad
   | ["dump"] => (t, dumpRows t)
+  | ["buckets", kind, col] => match parseCol col with
+      | some c =>
+        if kind = "h" then (t, match assocGet c t.hidx with | some ix => showBuckets (bucketsOf ix) | none => "none")
+        else if kind = "o" then (t, match assocGet c t.oidx with | some ix => showBuckets (bucketsOf ix) | none => "none")
+        else bad
+      | none => bad
+  | "q" :: "cand" :: crest => match parseWholeCond crest with
+      | some c => (t, match tryIndexLookupT t c with | some ids => showNats ids | none => "scan")
+      | none => bad
+  | "rbdel" :: crest => match parseWholeCond crest with
+      | some c => (deleteRolledBack t c, s!"ok {(matching t c).length}")
+      | none => bad
+  | "rbupd" :: k :: rest => match k.toNat? with
+      | some k => (match parseSets k rest with
+          | some (sets, crest) => (match parseWholeCond crest with
+              | some c => (match updateRolledBack t c sets with
+                  | .ok (t', n) => (t', s!"ok {n}") | .error e => (t, "err " ++ showErr e))
+              | none => bad)
+          | none => bad)
+      | none => bad
   | ["vcmp", a, b] => match parseVal a, parseVal b with
       | some x, some y => (t, s!"eq={if Value.eq x y then 1 else 0} cmp={showOrd (partialCmp x y)}")
       | _, _ => bad
